@@ -16,6 +16,22 @@ CLAIMED = {
         "Trusted: symx normal form + z3; exact reals (no float rounding); shapes (n,K) listed in evidence.bounds; ot.emd2 is an "
         "uninterpreted function (POT computing W1 is trusted); scikit-learn kernels are outside (C11 covers dispatch).",
         "DESIGN.md §4 C01", None),
+    "C02": (
+        "Bounded symbolic model checking: the real evaluate(return_grad=True) runs on symbolic predictions (simplex by substitution); "
+        "the returned score term is differentiated exactly (symx.diff) along every simplex direction and the solver shows it equals "
+        "the difference of returned gradient entries, per feasible path (TV sign patterns as sign atoms, MMD zero-distance masks, all "
+        "clipping patterns on the closed box).  Also score(grad)==score(no grad), shape, zero gradient at clipped entries.",
+        "Trusted: symx (normal form, differentiation) + z3; differentiability region only (ties excluded); Wasserstein through the stubbed "
+        "ot.emd2 with the envelope-theorem differential (POT's duals are trusted); exact reals; shapes in evidence.bounds.",
+        "DESIGN.md §4 C02", None),
+    "C05": (
+        "Bounded symbolic model checking of the real prox functions on symbolic weights/alpha/M with every branch (sort orders, clipping, "
+        "zero rows, ties) forked: group lasso output equals the documented explicit form and satisfies the stationarity certificate; "
+        "LassoNet hier-prox output satisfies the quantifier-free optimality certificate A/A2/A3, and the lemmas that make the certificate "
+        "sufficient are discharged by the solver in the same run.",
+        "Trusted: symx + z3; exact reals; shapes (d,k,h) and group partitions listed in evidence.bounds; optimality of the hierarchical "
+        "operator is by certificate + lemmas (T2 up to h=3, L2 for k=2), the direct 'no competitor does better' query only for the group lasso with h<=2.",
+        "DESIGN.md §4 C05", None),
 }
 
 NOT_APPLICABLE = {
